@@ -7,7 +7,7 @@ size_t cqv_j;           /* arbitrary element index instead of a quantifier */
 #ifdef CQV_HUGE
 #define CQV_COUNT_OK(c, max) 1
 #else
-#define CQV_COUNT_OK(c, max) ((c) <= (max))   /* A2: the output object of c elements is <= 2^40 bytes */
+#define CQV_COUNT_OK(c, max) ((c) <= (int64_t)(max))   /* A2: the output object of c elements is <= 2^40 bytes */
 #endif
 #define CQV_OUT_BYTES(c, sh) (((c) >= 0 && (c) <= (int64_t)(CQV_MAXBUF >> (sh))) ? ((size_t)(c) << (sh)) : cqv_any_bytes)
 #include "src/encoding/plain.c"
@@ -17,37 +17,51 @@ size_t cqv_j;           /* arbitrary element index instead of a quantifier */
 
 void h_plain_boolean(void) {
   GHOSTS();
-  int64_t r = carquet_decode_plain_boolean(nondet_ptr(), nondet_size_t(), nondet_ptr(), nondet_i64());
+  int64_t count = nondet_i64();
+  int64_t r = carquet_decode_plain_boolean(nondet_ptr(), nondet_size_t(), nondet_ptr(), count);
+  if (count < 0) CQV_CANARY("negative count is covered");
   CQV_CANARY("returns"); if (r >= 0) CQV_CANARY("can succeed"); if (r > 0) CQV_CANARY("can consume bytes"); if (r < 0) CQV_CANARY("can fail");
 }
 void h_plain_int32(void) {
   GHOSTS();
-  int64_t r = carquet_decode_plain_int32(nondet_ptr(), nondet_size_t(), nondet_ptr(), nondet_i64());
+  int64_t count = nondet_i64();
+  int64_t r = carquet_decode_plain_int32(nondet_ptr(), nondet_size_t(), nondet_ptr(), count);
+  if (count < 0) CQV_CANARY("negative count is covered");
   CQV_CANARY("returns"); if (r > 0) CQV_CANARY("can consume bytes"); if (r < 0) CQV_CANARY("can fail");
 }
 void h_plain_int64(void) {
   GHOSTS();
-  int64_t r = carquet_decode_plain_int64(nondet_ptr(), nondet_size_t(), nondet_ptr(), nondet_i64());
+  int64_t count = nondet_i64();
+  int64_t r = carquet_decode_plain_int64(nondet_ptr(), nondet_size_t(), nondet_ptr(), count);
+  if (count < 0) CQV_CANARY("negative count is covered");
   CQV_CANARY("returns"); if (r > 0) CQV_CANARY("can consume bytes"); if (r < 0) CQV_CANARY("can fail");
 }
 void h_plain_int96(void) {
   GHOSTS();
-  int64_t r = carquet_decode_plain_int96(nondet_ptr(), nondet_size_t(), nondet_ptr(), nondet_i64());
+  int64_t count = nondet_i64();
+  int64_t r = carquet_decode_plain_int96(nondet_ptr(), nondet_size_t(), nondet_ptr(), count);
+  if (count < 0) CQV_CANARY("negative count is covered");
   CQV_CANARY("returns"); if (r > 0) CQV_CANARY("can consume bytes"); if (r < 0) CQV_CANARY("can fail");
 }
 void h_plain_float(void) {
   GHOSTS();
-  int64_t r = carquet_decode_plain_float(nondet_ptr(), nondet_size_t(), nondet_ptr(), nondet_i64());
+  int64_t count = nondet_i64();
+  int64_t r = carquet_decode_plain_float(nondet_ptr(), nondet_size_t(), nondet_ptr(), count);
+  if (count < 0) CQV_CANARY("negative count is covered");
   CQV_CANARY("returns"); if (r > 0) CQV_CANARY("can consume bytes"); if (r < 0) CQV_CANARY("can fail");
 }
 void h_plain_double(void) {
   GHOSTS();
-  int64_t r = carquet_decode_plain_double(nondet_ptr(), nondet_size_t(), nondet_ptr(), nondet_i64());
+  int64_t count = nondet_i64();
+  int64_t r = carquet_decode_plain_double(nondet_ptr(), nondet_size_t(), nondet_ptr(), count);
+  if (count < 0) CQV_CANARY("negative count is covered");
   CQV_CANARY("returns"); if (r > 0) CQV_CANARY("can consume bytes"); if (r < 0) CQV_CANARY("can fail");
 }
 void h_plain_byte_array(void) {
   GHOSTS();
-  int64_t r = carquet_decode_plain_byte_array(nondet_ptr(), nondet_size_t(), nondet_ptr(), nondet_i64());
+  int64_t count = nondet_i64();
+  int64_t r = carquet_decode_plain_byte_array(nondet_ptr(), nondet_size_t(), nondet_ptr(), count);
+  if (count < 0) CQV_CANARY("negative count is covered");
   CQV_CANARY("returns"); if (r > 0) CQV_CANARY("can consume bytes"); if (r < 0) CQV_CANARY("can fail");
 }
 /* loop-free; count*fixed_len is a product of two variables => harness is the contract, SMT back end */
@@ -68,5 +82,51 @@ void h_plain_fixed(void) {
   int64_t r = carquet_decode_plain_fixed_byte_array(in, input_size, out, count, fixed_len);
   __CPROVER_assert(r == -1 || (in != NULL && out != NULL && count >= 0 && fixed_len > 0 && r >= 0 && (size_t)r <= input_size), "error or consumed <= input_size");
   __CPROVER_assert(r == -1 || (__int128)r == prod, "consumed == count*fixed_len (exact)");
+  CQV_CANARY("returns"); if (r > 0) CQV_CANARY("can consume bytes"); if (r < 0) CQV_CANARY("can fail");
+}
+
+/* generic dispatcher: looping callees replaced by their contracts, memcpy variants inlined (real code) */
+static int64_t dispatch_common(int fixed_only) {
+  GHOSTS();
+  size_t input_size = nondet_size_t();
+  int64_t count = nondet_i64();
+  int32_t type_length = nondet_i32();
+  int type = nondet_int();
+  __CPROVER_assume(input_size <= CQV_MAXBUF && cqv_any_bytes <= CQV_MAXBUF);
+  size_t out_bytes = cqv_any_bytes;
+  if (fixed_only) {
+    __CPROVER_assume(type == CARQUET_PHYSICAL_FIXED_LEN_BYTE_ARRAY);
+    __int128 prod = (__int128)count * (__int128)type_length;
+    _Bool honest = count >= 0 && type_length > 0 && prod <= (__int128)CQV_MAXBUF;
+    __CPROVER_assume(count < 0 || type_length <= 0 || honest);
+    if (honest) out_bytes = (size_t)prod;
+  } else {
+    __CPROVER_assume(type != CARQUET_PHYSICAL_FIXED_LEN_BYTE_ARRAY);
+    int sh = -1;
+    if (type == CARQUET_PHYSICAL_BOOLEAN) sh = 0;
+    else if (type == CARQUET_PHYSICAL_INT32 || type == CARQUET_PHYSICAL_FLOAT) sh = 2;
+    else if (type == CARQUET_PHYSICAL_INT64 || type == CARQUET_PHYSICAL_DOUBLE) sh = 3;
+    else if (type == CARQUET_PHYSICAL_BYTE_ARRAY) sh = 4;
+    if (sh >= 0) {
+      __CPROVER_assume(count <= (int64_t)(CQV_MAXBUF >> sh));          /* A2 */
+      if (count >= 0) out_bytes = (size_t)count << sh;
+    } else if (type == CARQUET_PHYSICAL_INT96) {
+      __CPROVER_assume(count <= (int64_t)(CQV_MAXBUF >> 4));           /* A2 */
+      if (count >= 0) out_bytes = ((size_t)count << 3) + ((size_t)count << 2);
+    }
+  }
+  uint8_t *in = nondet_bool() ? malloc(input_size) : NULL;
+  void *out = nondet_bool() ? malloc(out_bytes) : NULL;
+  int64_t r = carquet_decode_plain(in, input_size, (carquet_physical_type_t)type, type_length, out, count);
+  __CPROVER_assert(r == -1 || (in != NULL && out != NULL && count >= 0 && r >= 0 && (size_t)r <= input_size), "dispatcher: error or consumed <= input_size");
+  __CPROVER_assert(r == -1 || (type >= CARQUET_PHYSICAL_BOOLEAN && type <= CARQUET_PHYSICAL_FIXED_LEN_BYTE_ARRAY), "unknown type is rejected");
+  return r;
+}
+void h_plain_dispatch(void) {
+  int64_t r = dispatch_common(0);
+  CQV_CANARY("returns"); if (r > 0) CQV_CANARY("can consume bytes"); if (r < 0) CQV_CANARY("can fail");
+}
+void h_plain_dispatch_fixed(void) {
+  int64_t r = dispatch_common(1);
   CQV_CANARY("returns"); if (r > 0) CQV_CANARY("can consume bytes"); if (r < 0) CQV_CANARY("can fail");
 }
